@@ -1,20 +1,43 @@
-"""C11 - text encodings."""
-
-# ASan keeps the allocation stack of every malloc in a depot that never shrinks; librapidcheck is built without frame
-# pointers, so the fast unwinder records garbage frames that differ from case to case below depth ~8 and the depot grows by
-# 4-20 KB per rapidcheck case (3 GB per shard at 10^5 cases). Short allocation contexts keep the shards at ~100 MB; the
-# stack of the *faulting* access in a report is not affected. (Same option string as run/check.py SAN_ENV otherwise.)
-ASAN_OPTIONS = ("abort_on_error=0:exitcode=97:detect_leaks=1:allocator_may_return_null=1:detect_stack_use_after_return=0:"
-                "handle_abort=1:symbolize=1:max_allocation_size_mb=4096:malloc_context_size=6:quarantine_size_mb=64")
+"""C11 - text encodings (base64, rot13, URL/control/quote escapers, netloc)."""
 
 PROP = dict(
     level="exploration",
     stages=[
-        dict(name="c11_text", src="harness/c11_text.cc", env={"ASAN_OPTIONS": ASAN_OPTIONS}, shards_quick=8, shards_thorough=16, timeout_quick=400, timeout_thorough=1500),
+        # exhaustive small scopes + rapidcheck against an in-harness reference written from RFC 4648 / RFC 3986 / the C escape syntax
+        dict(name="c11_text", src="harness/c11_text.cc", shards_quick=8, shards_thorough=16, timeout_quick=400, timeout_thorough=1500),
+        # Hypothesis cross-check against Python's base64 / binascii / codecs / urllib.parse through a serve shim
         dict(name="c11_py", kind="pydriver", driver="oracle/c11_text.py", shim="shim/c11_shim.cc", deps=["shim/shim.hh"],
              shards_quick=8, shards_thorough=16, timeout_quick=400, timeout_thorough=1500),
     ],
-    rule="",
-    assumptions=[],
-    min_evaluations_quick=100000,
+    rule=("exhaustive: every byte string of length 0..3 through base64_encode/base64_decode for the default and the URL-safe alphabet "
+          "(lengths 0..2 also with DEFAULT_ALPHABET passed explicitly; the quick tier sweeps one quarter of the 3-byte strings for the URL-safe "
+          "alphabet); every 4- and 8-character text over {A,Q,=,*,-,/} through base64_decode for both alphabets (quick tier: 8-character texts "
+          "over {A,=,*,-,/}); every single-character substitution (256 values x every position), truncation and one-character extension of "
+          "valid encodings of 0..48 bytes; every byte string of length 0..2 through rot13, escape_url (both flags), escape_controls (both "
+          "modes), escape_quotes; ports 0..65535 for eight hosts. Random (rapidcheck + Hypothesis): byte strings up to 2 KiB (uniform, "
+          "special-character alphabets, xorshift filler), base64 texts built from valid encodings with 0..3 edits biased to the last quad, "
+          "alphabet-only texts with 0..2 trailing '=' (non-zero trailing bits), mixed-alphabet texts; hosts up to 200 colon-free bytes. "
+          "Non-trivial: decode inputs containing padding or a character outside the alphabet; encode inputs with length mod 3 != 0; "
+          "rot13 inputs containing an ASCII letter; escaper inputs in which at least one byte must be escaped; netloc pairs with port != 0. "
+          "Distinct = distinct case encodings; the two hot loops (2^24 three-byte strings, 6^8 eight-character texts) register one entry "
+          "per block, so the distinct count is a lower bound."),
+    assumptions=["base64 validity predicate (RFC 4648 + the property statement): length % 4 == 0, every character in the alphabet, '=' only in "
+                 "the last position or in the last two positions; non-zero unused trailing bits are accepted (Python accepts them too) and ignored",
+                 "hosts are non-empty and colon-free, ports and default ports are in 0..65535; port 0 renders without ':' and parses back "
+                 "to the default port",
+                 "escape_url must leave RFC 3986 unreserved characters literal (equivalently: equal urllib.parse.quote with safe='=&' plus "
+                 "'/' unless escape_slash) - this is what makes the design's mutant 'drop ~ from the safe set' observable",
+                 "escape_quotes does not escape backslashes, so its output is decoded back only for backslash-free inputs",
+                 "glibc isalnum() in the C locale for bytes >= 0x80 passed as negative char (escape_url)"],
+    min_evaluations_quick=1000000,
+    engine="rapidcheck + exhaustive enumerators; Hypothesis + serve shim",
+    technique=("differential and inverse-function property testing: phosg's encoders/decoders against an independent in-harness RFC 4648 "
+               "encoder, decoder and validity predicate, table-driven rot13, exactly-two-hex-digit unescapers, and against Python's base64 "
+               "(validate=True), codecs rot13, urllib.parse.unquote_to_bytes/quote through a C++ serve shim; exhaustive small-scope "
+               "enumeration + rapidcheck + Hypothesis"),
+    level_text=("Exploration: the real functions (ASan+UBSan build of the working tree) are run on every input of the small scopes named in the "
+                "property (3-byte strings, 4/8-character texts over a 6-symbol alphabet, single-character corruptions, 2-byte strings for "
+                "the escapers, all ports) and on ~10^5..10^6 generated inputs; each result is compared with an independent implementation. "
+                "Finds any defect with a witness in those scopes; not a proof for longer inputs."),
+    level_note="Trusts the in-harness reference (cross-checked against Python by the second stage), Python's base64/binascii/codecs/urllib, and glibc's C-locale isalnum.",
 )
